@@ -67,7 +67,8 @@ def run(chk):
                 'dicts / tuples / bytes; non-trivial = two namespaces with an equal id outstanding, or an ACK that matches nothing; '
                 'distinct by the per-operation id / namespace pattern; plus the re-entrant scenario of Client/ClientX.v: while the '
                 'handler of a text or reassembled binary event runs, the next server frame (EVENT on another namespace, ACK for an '
-                'outstanding callback, second binary header) is delivered from inside the handler body')
+                'outstanding callback, second binary header) is delivered from inside the handler body; and ACK / BINARY_ACK frames whose '
+                'callback re-delivers the same frame once before it returns (in the model: the frame twice in sequence)')
     chk.trusted_base = list(common.TRUSTED)
     chk.assumptions = ['reconnection=False', 'events literally named connect / connect_error / disconnect are outside the domain',
                        'application callbacks return; handlers may raise (then no ACK is owed)',
@@ -78,7 +79,7 @@ def run(chk):
                           p_wait=0.9, raise_p=0.08, catchall=0.35, class_ns=0.4)
     k.w.update({'event': 6, 'binary': 2.2, 'ack': 6, 'emit': 0.6, 'emit_cb': 5, 'send': 1.0, 'call': 3, 'server_disc': 0.4,
                 'disconnect': 0.25, 'loss': 0.3, 'server_close': 0.15, 'reconnect': 0.1, 'bad_ns': 0.2, 'junk': 0.3,
-                'second_disc': 0.0, 'nested': 3.0})
+                'second_disc': 0.0, 'nested': 3.0, 'ack_nested': 2.5})
     hs = [WITNESS_NESTED]
     for _ in range(n):
         hs.append(client_hist.gen_history(rng, k))
